@@ -36,18 +36,18 @@ func replPool() []string {
 		"/* open",
 		model.KwFun + " f() { " + model.KwReturn + " 7; } " + model.KwPrint + " f();",
 		model.BiAbs + "();",
-		model.BiLen + " = 0;",                                        // assignment to a built-in name (allowed by the grammar)
-		model.BiLen + " = 0; " + model.BiLen + "([1]);",              // ... followed by a failing use in the same line
+		model.BiLen + " = 0;",                                              // assignment to a built-in name (allowed by the grammar)
+		model.BiLen + " = 0; " + model.BiLen + "([1]);",                    // ... followed by a failing use in the same line
 		model.BiMax + " = nil; " + model.KwPrint + " " + model.BiMax + ";", // ... and a print of the rebound name
 		model.KwPrint + " " + model.BiMax + "(2, 7);",
-		model.KwPrint + " \"pre\"; " + model.KwBreak + ";",            // output, then a stray break
-		model.KwPrint + " \"pre\"; " + model.KwReturn + " 1;",         // output, then a stray return
-		model.KwPrint + " \"pre\"; " + model.KwContinue + ";",         // output, then a stray continue
+		model.KwPrint + " \"pre\"; " + model.KwBreak + ";",                 // output, then a stray break
+		model.KwPrint + " \"pre\"; " + model.KwReturn + " 1;",              // output, then a stray return
+		model.KwPrint + " \"pre\"; " + model.KwContinue + ";",              // output, then a stray continue
 		model.KwPrint + " \"pre\"; 1 / 0; " + model.KwPrint + " \"post\";", // output, a runtime error, more output
-		"\"echoed\"; zz;",                                              // an echo, then an undefined name
-		model.KwPrint + " " + model.BiInput + ";",                      // a built-in printed (no call)
-		"# @ # @ # @ # @ # @ # @ # @", // a line with many lexical errors
-		"1 +; 2 +; ) ) ) ; ; ;",        // a line with a syntax error followed by more garbage
+		"\"echoed\"; zz;",                         // an echo, then an undefined name
+		model.KwPrint + " " + model.BiInput + ";", // a built-in printed (no call)
+		"# @ # @ # @ # @ # @ # @ # @",             // a line with many lexical errors
+		"1 +; 2 +; ) ) ) ; ; ;",                   // a line with a syntax error followed by more garbage
 	}
 }
 
